@@ -54,6 +54,12 @@ def base_script(kind, code, arrival, a, b):
         steps.append(("reset", 1))
         steps.append(("reset", 2))
         steps.append(("recv", [fr]))
+    elif arrival == "again":                 # a request that timed out, then a fresh one answered in time
+        steps.append(("reset", 1))
+        steps.append(("timer",))
+        steps.append(("reset", 2))
+        steps.append(("recv", [fr]))
+        steps.append(("timer",))
     elif arrival == "startup":
         steps.append(("startup", 9))
         steps.append(("recv", [fr]))
@@ -126,7 +132,7 @@ def run(ctx: Ctx):
                     invariants=("CompletesOnlyOnSoftware", "OtherCodesAreFailure", "WaitersReleased", "SecondResetJoins"),
                     required_actions=("Reset", "Startup", "DoRstack", "DoRstackLost", "DoError", "Timeout", "DoLost"))
     rng = ctx.rng
-    arrivals = ("before", "intime", "after", "twice", "joined", "startup", "startup+reset")
+    arrivals = ("before", "intime", "after", "twice", "joined", "again", "startup", "startup+reset")
     codes = list(range(256)) if not ctx.quick else [11, 0, 1, 2, 3, 6, 9, 0x51, 0x80, 0xFF] + [rng.randrange(256) for _ in range(6)]
     ecodes = [c_ for c_ in range(0x50, 256)] if not ctx.quick else [0x51, 0x52, 0x80, 0xFF]
     pairs = [(a, b) for a in range(8) for b in range(8)] if not ctx.quick else [(0, 0), (3, 5), (7, 7), (1, 0), (0, 6)]
@@ -157,7 +163,7 @@ def run(ctx: Ctx):
     metas = [dict(j[1], steps=j[0]) for j in jobs]
     ctx.evaluations = len(traces)
     ctx.distinct_nontrivial = len({str(j[0]) for j in jobs})
-    ctx.rule = (f"RSTACK with {len(codes)} codes and ERROR with {len(ecodes)} codes x 7 arrival patterns (before the request, in time, after the timeout, twice, "
+    ctx.rule = (f"RSTACK with {len(codes)} codes and ERROR with {len(ecodes)} codes x 8 arrival patterns (before the request, in time, after the timeout, twice, a fresh request after a timed-out one, "
                 "second request joining, start-up waiter, start-up waiter plus request) after prior traffic leaving (tx, rx) at various values in 0..7, each followed "
                 "by a send and a DATA frame numbered 0; for selected codes the connection is lost before every step (own callback: error, clean close, EOF) or "
                 "queued right behind every read; distinct = distinct step list")
